@@ -598,7 +598,7 @@ func runC05(r *Run, rng *Rng, replay string) {
 	thorough := r.Tier == "thorough"
 	// 1. deterministic witnesses first
 	c05RunHistory(r, d, c05MergeWitness(), true, "witness:merge")
-	for _, w := range c05Witnesses() {
+	for _, w := range append(c05Witnesses(), c05SynthWitnesses()...) {
 		c05RunHistory(r, d, w.hist, true, "witness:"+w.name)
 	}
 	if files, err := filepath.Glob(filepath.Join("..", "corpus", "C05", "*.ops")); err == nil {
